@@ -33,7 +33,10 @@ Proof.
 Qed.
 
 Lemma strip_cr_snoc l : strip_cr (l ++ [13]) = l.
-Proof. unfold strip_cr. rewrite frev_rev, rev_app_distr. cbn [rev app]. now rewrite frev_rev, rev_involutive. Qed.
+Proof.
+  unfold strip_cr. rewrite frev_rev, rev_app_distr. cbn [rev app]. change (N.eqb 13 13) with true. cbv iota.
+  now rewrite frev_rev, rev_involutive.
+Qed.
 
 Lemma line_lf_crlf l rest : mem_n 10 l = false -> blen l <= MAXL ->
   line_lf (l ++ CRLFb ++ rest) = Got l rest.
